@@ -332,6 +332,41 @@ where StandardNormal: Distribution<F>, Exp1: Distribution<F>, Open01: Distributi
             });
             push("SkewNormal", vec![loc, sc, al], got, ra.words(), refv, rb.words(), &tag, out);
         }
+        // InverseGaussian(mu, lambda), Michael-Schucany-Haas as documented: v ~ N(0,1), y = mu v^2,
+        // x = mu + mu/(2 lambda) (y - sqrt(4 lambda y + y^2)); x with probability mu / (mu + x), else mu^2 / x
+        for (mu, l) in [(f(1.0), f(1.0)), (f(0.5), f(3.0)), (f(2.0), f(0.25)), (f(8.0), f(8.0)), (f(0.125), f(1.0))] {
+            let Ok(d) = InverseGaussian::new(mu, l) else { continue };
+            let (mut ra, mut rb) = (rng0.clone(), rng0.clone());
+            let got = guarded(|| d.sample(&mut ra));
+            let refv = guarded(|| {
+                let v: F = StandardNormal.sample(&mut rb);
+                let y = mu * v * v;
+                let x = mu + mu / (f(2.0) * l) * (y - (f(4.0) * l * y + y * y).sqrt());
+                let u: F = StandardUniform.sample(&mut rb);
+                if u <= mu / (mu + x) { x } else { mu * mu / x }
+            });
+            push("InverseGaussian", vec![mu, l], got, ra.words(), refv, rb.words(), &tag, out);
+            // root selection, measured: for this normal draw, the uniform words that return the first root x are a prefix of the
+            // word range; their number T, the two roots and mu as fixed-point integers (floor(v 2^40), base-2^14 limbs)
+            let nwords = ra.words();
+            if nwords >= 2 {
+                let pre: Vec<u64> = { let mut r = rng0.clone(); (0..nwords - 1).map(|_| rand::Rng::next_u64(&mut r)).collect() };
+                let call = |w: u64| -> Result<(F, u64), String> { let mut p = pre.clone(); p.push(w); let mut r = ScriptRng::new(p, 1); guarded(|| d.sample(&mut r)).map(|v| (v, r.words())) };
+                if let (Ok((x0, w0)), Ok((x1, w1))) = (call(0), call(u64::MAX)) {
+                    let (mut a, mut b) = (0u128, (1u128 << 64) - 1);     // largest w returning x0
+                    while a < b { let m = a + (b - a + 1) / 2; if call(m as u64).map(|r| r.0 == x0).unwrap_or(false) { a = m; } else { b = m - 1; } }
+                    let t = a + 1;
+                    let l14 = |mut v: u128| -> Vec<i64> { let mut o = vec![]; loop { o.push((v & 0x3fff) as i64); v >>= 14; if v == 0 { break; } } o };
+                    let q = |x: F| -> Vec<i64> { l14((x.f64v() * 1099511627776.0).floor().max(0.0) as u128) };
+                    let other = mu * mu / x0;                          // the documented second root (two IEEE operations, declared)
+                    let fin = x0.is_finite() && x1.is_finite() && other.is_finite() && x0 > F::zero();
+                    out.push(json!({"op": "msh", "fam": "InverseGaussian", "ft": F::NAME, "res": "Ok", "finite": fin, "words_same": w0 == nwords && w1 == nwords,
+                        "T": l14(t), "muq": q(mu), "xq": if fin { q(x0) } else { vec![0] }, "x1": if fin { ord_limbs(x1) } else { vec![0, 0, 0] }, "other": if fin { ord_limbs(other) } else { vec![0, 0, 0] },
+                        "same_root": x0 == x1, "show": [format!("{:e}", x0), format!("{:e}", x1), format!("{:.6}", t as f64 / 18446744073709551616.0)],
+                        "params": [format!("{:e}", mu), format!("{:e}", l)], "stream": tag}).to_string());
+                }
+            }
+        }
         // Normal(0, 1) = StandardNormal
         { let d = Normal::new(F::zero(), F::one()).unwrap(); let (mut ra, mut rb) = (rng0.clone(), rng0.clone());
           let got = guarded(|| d.sample(&mut ra)); let refv = guarded(|| { let n: F = StandardNormal.sample(&mut rb); n });
